@@ -34,7 +34,7 @@ def main():
     base = {p: run_check(p, tier)[1] for p in props}
     res_path = os.path.join(VERIF, "seeded", "BENIGN_RESULTS%s.json" % SLOT)
     results = json.load(open(res_path)) if os.path.exists(res_path) else {}
-    for d in sorted(glob.glob(os.path.join(VERIF, "seeded", "benign", "B*", "[0-9]"))):
+    for d in sorted(glob.glob(os.path.join(VERIF, "seeded", "benign", "B*", "[0-9]*"))):
         tag = "/".join(d.split("/")[-2:])
         if args and tag not in args and tag.split("/")[0] not in args:
             continue
